@@ -52,7 +52,7 @@ PROPS = {
                            "tbl_succeeded_doors_task", "tbl_failure_covered", "tbl_failure_canceling",
                            "tbl_failed_request_total", "C10_never_succeeds", "tbl_leave_active_total"]},
         keys=["status", "sequence", "staged"], offers="ids",
-        prof=dict(p_badexpr=0.4, bad_where=["publish", "when", "publish", "retry_when", "input"], max_tasks=4), hist=dict(p_pause=0.15, p_cancel=0.08, p_task_pause=0.25, p_lifecycle=0.3, p_early_resume=0.3, p_first_pending=0.1),
+        prof=dict(p_badexpr=0.4, bad_where=["publish", "when", "publish", "retry_when", "input"], max_tasks=4), hist=dict(p_pause=0.15, p_cancel=0.08, p_task_pause=0.25, p_lifecycle=0.3, p_early_resume=0.3, p_first_pending=0.1, p_item_pause=0.06),
         monitor="C02", unproven=["state invariant paused|canceled => no active record is proved only at the doors (table level), not as a history invariant"],
     ),
     "C03": dict(
@@ -60,7 +60,7 @@ PROPS = {
         theorems={STATUS: ["tbl_succeeded_doors_task", "tbl_failure_covered", "tbl_task_targets_have_events", "tbl_item_targets_have_events", "tbl_failed_request_total", "tbl_leave_active_total", "tbl_quiescent_resolves", "C03_fresh_start_statuses", "C03_fresh_start_statuses_item"], ERRORS: ["C11_update_never_raises_expr"]},
         keys=["status", "staged", "sequence"], offers="ids",
         prof=dict(p_template=0.35, templates=[9, 9, 9, 9, 2, 0, 1, 3, 4, 5, 6, 7, 8]),
-        hist=dict(p_pause=0.1, p_cancel=0.05, p_rerun=0.4, p_task_pause=0.05, p_lifecycle=0.3, p_lazy_start=0.25, p_odd_terminal=0.2, p_first_pending=0.15, p_early_resume=0.3),
+        hist=dict(p_pause=0.1, p_cancel=0.05, p_rerun=0.4, p_task_pause=0.05, p_lifecycle=0.3, p_lazy_start=0.25, p_odd_terminal=0.2, p_first_pending=0.15, p_early_resume=0.3, p_item_pause=0.04),
         monitor="C03", unproven=["C03_quiescent_resting (history invariant) is not proved; search only"],
     ),
     "C04": dict(
@@ -81,7 +81,7 @@ PROPS = {
         title="context = variables published by causal ancestors",
         theorems={JOIN: ["C06_delta_keys"], VALUES: ["C06_merge_later_wins", "C16_merge_preserves_values"], HISTORY: ["C18_context_fixed"]},
         keys=["contexts", "sequence", "staged", "output"], offers="full",
-        prof=dict(p_publish=0.8, p_clash=0.4, p_items=0.05, p_retry=0.05, p_template=0.35, templates=[6, 6, 6, 0, 2, 5, 7, 13, 13], p_null_over=0.3), hist=dict(p_fail=0.15),
+        prof=dict(p_publish=0.8, p_clash=0.4, p_items=0.05, p_retry=0.05, p_template=0.35, templates=[6, 6, 6, 0, 2, 5, 7, 13, 13], p_null_over=0.3), hist=dict(p_fail=0.15, p_rerun=0.3),
         monitor="C06", unproven=["C06_ctx_indices_exact (ancestor-exactness as a history invariant) not proved; search only"],
     ),
     "C07": dict(
@@ -104,16 +104,18 @@ PROPS = {
                            "tbl_dormant_doors_wf", "tbl_failure_covered"],
                   NEXT: ["C09_no_offer_while_pausing_or_paused"]},
         keys=["status", "staged", "sequence", "errors", "output"], offers="ids",
-        prof=dict(p_badexpr=0.15), hist=dict(p_pause=0.25, p_task_pause=0.05), monitor="C09",
+        prof=dict(p_badexpr=0.15, p_join=0.8, p_items=0.12, p_retry=0.06, p_cmd=0.1, p_template=0.3, templates=[0, 0, 6, 7, 2]), hist=dict(p_pause=0.25, p_task_pause=0.05, p_item_pause=0.04), monitor="C09",
         unproven=["C09_transparent (twin-run equality) is relational and not proved; search only"],
     ),
     "C10": dict(
         title="cancellation stops scheduling and ends canceled",
         theorems={STATUS: ["C10_cancel_family_closed", "C10_never_succeeds", "C04_canceled_final",
-                           "tbl_dormant_doors_task", "tbl_dormant_doors_wf", "tbl_active_doors_wf"],
+                           "tbl_dormant_doors_task", "tbl_dormant_doors_wf", "tbl_active_doors_wf",
+                           "tbl_cancel_request_never_fails", "tbl_canceling_reports_never_fail",
+                           "C10_cancel_request_never_fails", "C10_reports_keep_canceling"],
                   NEXT: ["C10_no_offer_after_cancel"]},
         keys=["status", "staged", "sequence", "errors", "output"], offers="ids",
-        prof=dict(p_template=0.45, templates=[1, 1, 1, 0, 2, 4]), hist=dict(p_cancel=0.3, p_pause=0.08, p_fail=0.45), monitor="C10", unproven=[],
+        prof=dict(p_template=0.45, templates=[1, 1, 1, 0, 0, 2, 4, 6], p_join=0.8), hist=dict(p_cancel=0.3, p_pause=0.08, p_fail=0.35, p_first_pending=0.25, p_task_pause=0.15), monitor="C10", unproven=[],
     ),
     "C11": dict(
         title="expression errors contained",
@@ -127,7 +129,7 @@ PROPS = {
         title="with-items: every item once, in order, within the limit",
         theorems={ITEMS: ["C12_window_bound", "C12_window_total", "C12_window_unset_only", "C12_window_in_order", "C12_no_concurrency_all_unset", "C12_item_success_unique", "C12_completed_needs_dormant"], NEXT: ["C09_no_offer_while_pausing_or_paused", "C10_no_offer_after_cancel"]},
         keys=["status", "staged", "sequence"], offers="full",
-        prof=dict(p_items=0.9, max_tasks=3, p_retry=0.1), hist=dict(p_fail=0.3, p_pause=0.1, p_cancel=0.05, p_rerun=0.5),
+        prof=dict(p_items=0.9, max_tasks=3, p_retry=0.1), hist=dict(p_fail=0.3, p_pause=0.1, p_cancel=0.05, p_rerun=0.5, p_item_pause=0.08),
         monitor="C12", unproven=["C12_all_offered (progress) not proved; result ordering is assembled by the provider"],
     ),
     "C13": dict(
